@@ -282,8 +282,12 @@ def known_findings(pid):
 
 # ------------------------------------------------------------------------------------ verdict
 
+ALT = os.path.abspath(REPO) != "/repo"     # a run against a scratch copy of the repository (seeded changes, experiments)
+REPLAY_DIR = os.path.join(BUILD, "replay_alt" if ALT else "replay")
+EVIDENCE_DIR = os.path.join(BUILD, "evidence_alt") if ALT else os.path.join(VERIF, "evidence")
+
 def write_replay(ctx, rec):
-    d = os.path.join(BUILD, "replay")
+    d = REPLAY_DIR
     os.makedirs(d, exist_ok=True)
     rec = dict(rec); rec["property"] = ctx.id; rec["seed"] = ctx.seed; rec["tier"] = ctx.tier
     h = hashlib.sha256(json.dumps(rec, sort_keys=True).encode()).hexdigest()[:12]
@@ -292,7 +296,7 @@ def write_replay(ctx, rec):
     return path
 
 def clean_replays(pid):
-    for p in glob.glob(os.path.join(BUILD, "replay", pid + "-*.json")):
+    for p in glob.glob(os.path.join(REPLAY_DIR, pid + "-*.json")):
         try: os.remove(p)
         except OSError: pass
 
@@ -329,10 +333,10 @@ def finish(ctx):
     if ctx.known: ev["coverage"]["known_findings_reproduced"] = ctx.known
     if ctx.broken: ev["coverage"]["broken"] = [{"kind": b["kind"], "name": b["name"]} for b in ctx.broken]
     ev["coverage"]["theorems"] = ctx.theorems
-    os.makedirs(os.path.join(VERIF, "evidence"), exist_ok=True)
-    tmp = os.path.join(VERIF, "evidence", ctx.id + ".json.tmp%d" % os.getpid())
+    os.makedirs(EVIDENCE_DIR, exist_ok=True)
+    tmp = os.path.join(EVIDENCE_DIR, ctx.id + ".json.tmp%d" % os.getpid())
     json.dump(ev, open(tmp, "w"), indent=1)
-    os.replace(tmp, os.path.join(VERIF, "evidence", ctx.id + ".json"))
+    os.replace(tmp, os.path.join(EVIDENCE_DIR, ctx.id + ".json"))
     for l in lines: print(l, flush=True)
     if nviol == 0:
         print("OK property=%s tier=%s obligations=%d/%d evaluations=%d wall=%.1fs" % (
